@@ -272,6 +272,21 @@ def judge(case, m):
                             case=case, key="stale-after-inplace-change")
         except Exception as e:
             m.violation("newdata-evaluates", f"{kind}: {type(e).__name__}: {e}", case=case, key="raises:" + type(e).__name__)
+    # the empty selection of rows is a selection of rows: no row, the same columns (splines refuse an empty
+    # input by an explicit check: observed, not judged)
+    if "bs(" not in text:
+        for kind, part in (("common", dm.common), ("group", dm.group)):
+            if part is None:
+                continue
+            m.ev("newdata-evaluates")
+            try:
+                got0 = np.asarray(part.evaluate_new_data(df.iloc[:0]).design_matrix)
+                if got0.shape != (0, np.asarray(part.design_matrix).shape[1]):
+                    m.violation("newdata-evaluates", f"{kind}: no rows of the training frame give a matrix of shape {got0.shape}, "
+                                f"(0, {np.asarray(part.design_matrix).shape[1]}) expected", case=case, key="empty-selection:shape")
+            except Exception as e:
+                m.violation("newdata-evaluates", f"{kind}: no rows of the training frame: {type(e).__name__}: {e}", case=case,
+                            key="empty-selection:raises")
     for t in case["terms"]:
         for a in t:
             m.cls("atom:" + a.split("(")[0])
